@@ -685,7 +685,7 @@ pub mod %(name)s {
 """ % dict(name=name, prelude=PRELUDE, lexer=lexer_text(d), reference=reference_fn(d, N, m), entry_fn=entry_fn, unwind=unwind, stub=stub,
            nsets=len(set_names), m=m, enter=enter_code, custom_check=custom_check, construct=construct, pos_check=pos_check, post=post,
            symbolic_state=symbolic_state,
-           t_tok=tag("tok", "C01 C02 C03 C04 C11"), t_span=tag("span", "C01 C02 C04 C06 C11"), t_errkind=tag("errkind", "C07"),
+           t_tok=tag("tok", "C01 C02 C03 C04 C11"), t_span=tag("span", "C01 C02 C04 C06 C10 C11"), t_errkind=tag("errkind", "C07"),
            t_errloc=tag("errloc", "C07 C06"), t_custom=tag("custom", "C07 C10"), t_customloc=tag("customloc", "C07 C06"),
            t_none=tag("none", "C05 C01 C02"), t_extra=tag("extra", "C05"),
            t_okerr=tag("okerr", "C07 C01 C02 C04 C11"), t_errok=tag("errok", "C07 C01 C02 C04 C11"), t_rs=tag("rs", "C03 C08"),
